@@ -1,6 +1,8 @@
 """C19 — super() proxies see only the remainder of the MRO (DESIGN.md section 5, C19)."""
 import json
+import re
 from .. import common as C
+from . import regcommon as RC
 
 ID = "C19"
 COQ_TARGETS = ["Tie/C19.vo", "Properties/C19.vo"]
@@ -218,10 +220,49 @@ def gen_case(rng, tier):
     return {"ifaces": ifaces, "classes": classes, "objects": objects, "ops": ops}
 
 
+def gen_reg_case(rng):
+    """A registry history over a static world with super proxies, for the shared ordered registry
+    model (harness/drivers/reg_common.py, Tie/RegCommon.v)."""
+    for _ in range(100):
+        world, ifaces, classes = RC.gen_world(rng, n_ifaces=rng.choice([3, 4]), n_classes=rng.choice([2, 3, 4]),
+                                              n_objects=2)
+        specs = world["specs"]
+        obj_spec = [i for i, sp in enumerate(specs) if sp["kind"] == "object"][0]
+        bases_of = {obj_spec: []}
+        for i, sp in enumerate(specs):
+            if sp["kind"] == "class":
+                bases_of[i] = list(sp["cbases"]) or [obj_spec]
+                if rng.random() < 0.2:
+                    sp["only"] = True
+        memo = {}
+        mro = {c: c3(bases_of, c, memo) for c in bases_of}
+        if any(m is None for m in mro.values()):
+            continue
+        objects = world["objects"]
+        for j in range(len(objects)):
+            for cc in mro[objects[j]["cls"]][:-1]:
+                if rng.random() < 0.7 and len(objects) < 8:
+                    objects.append({"super_of": j, "at": cc})
+        if not any("super_of" in o for o in objects):
+            continue
+        world["ops"] = RC.gen_history(
+            rng, world, ifaces, classes, n_ops=rng.choice([12, 20]), n_regs=rng.choice([1, 1, 2]), rebase=False,
+            weights={"register": 8, "unregister": 1, "subscribe": 0.5, "unsubscribe": 0.2, "rebuild": 0.1,
+                     "lookup": 1, "lookup1": 0.5, "lookupAll": 0.5, "names": 0.2, "subscriptions": 0.3,
+                     "registered": 0.2, "subscribed": 0.1, "allRegistrations": 0.1, "allSubscriptions": 0.1,
+                     "queryAdapter": 5, "adapter_hook": 4, "queryMultiAdapter": 4, "subscribers": 0.5})
+        world["kind"] = "reg"
+        return world
+    raise C.HarnessError("could not generate a registry world with super proxies")
+
+
 def generate(run, tier):
     rng = run.rng("gen")
     n = 260 if tier == "quick" else 4000
-    return [gen_case(rng, tier) for _ in range(n)]
+    cases = [gen_case(rng, tier) for _ in range(n)]
+    rng2 = run.rng("reg")
+    cases += [gen_reg_case(rng2) for _ in range(60 if tier == "quick" else 800)]
+    return cases
 
 
 # --------------------------------------------------------------------------- Coq emission
@@ -263,11 +304,18 @@ def _env(case):
     return "(mkEnv [%s] [%s] [%s])" % ("; ".join(cg), "; ".join(ig), "; ".join(objs))
 
 
+_REGSYS = re.compile(r"\b(ONewReg|OSetRegBases|ORegister|OUnregister|OSubscribe|OUnsubscribe|ORebuild|QLookup1|"
+                     r"QLookupAll|QLookup|QNames|QSubscriptions|QRegistered|QSubscribed|QAllRegistrations|"
+                     r"QAllSubscriptions|QQueryAdapter|QAdapterHook|QQueryMultiAdapter|QSubscribers|Push|Verifying)\b")
+
+
 def coq_case(case, obs, mode):
     if "error" in obs:
         raise C.HarnessError("driver error: " + obs["error"])
+    if case.get("kind") == "reg":
+        return "(CReg %s)" % _REGSYS.sub(lambda m: "RegSys." + m.group(1), RC.coq_hist_case(case, obs))
     ips = "[" + "; ".join("None" if ip is None else "(Some %s)" % _lnat(ip) for ip in obs["ip"]) + "]"
-    return "(%s, %s,\n  [%s],\n  [%s],\n  [%s],\n  %s)" % (
+    return "(CDecl (%s, %s,\n  [%s],\n  [%s],\n  [%s],\n  %s))" % (
         C.cbool(mode == "c"), _env(case), "; ".join(_lnat(m) for m in obs["mros"]),
         ";\n   ".join(_op(o) for o in case["ops"]), "; ".join(_lnat(a) for a in obs["ans"]), ips)
 
@@ -320,6 +368,12 @@ def _features(case, obs):
 def classify(case, obs):
     if "error" in obs:
         return None
+    if case.get("kind") == "reg":
+        sup = [j for j, o in enumerate(case["objects"]) if "super_of" in o]
+        hit = sorted(set(op[0] for op, a in zip(case["ops"], obs["answers"])
+                         if op[0] in ("queryAdapter", "adapter_hook", "queryMultiAdapter") and a[:1] == [1]
+                         and (op[2] in sup if isinstance(op[2], int) else any(x in sup for x in op[2]))))
+        return ("reg", tuple(hit)) if hit else None
     f = _features(case, obs)
     if not (f["omitted"] and f["change_after_warm"]):
         return None
@@ -329,6 +383,8 @@ def classify(case, obs):
 def kind(case, obs):
     if "error" in obs:
         return "error"
+    if case.get("kind") == "reg":
+        return "registry history over super proxies"
     f = _features(case, obs)
     return "%s%s%s%s" % ("diamond " if f["diamond"] else "linear ", "mixin " if f["mixin"] else "",
                          "only " if f["only"] else "", "change-below-only" if f["change_below_only"] else
@@ -336,6 +392,8 @@ def kind(case, obs):
 
 
 def finding_key(case, obs, mode):
+    if case.get("kind") == "reg":
+        return "super-registry/%s" % mode
     return "super/%s/%d-classes" % (mode, len(case["classes"]))
 
 
@@ -344,6 +402,11 @@ def _name(n):
 
 
 def replay_text(case, obs, mode):
+    if case.get("kind") == "reg":
+        return ("# PURE_PYTHON=%s ; registry history in the format of harness/drivers/reg_common.py (objects with "
+                "'super_of' are super(cls, ob) proxies); answers [1, r]: r = factory*1000 + one digit per object the "
+                "factory received (must be the underlying instances)\n# observed answers: %s"
+                % ("1" if mode == "py" else "0", json.dumps(obs.get("answers"))))
     L = ["# PURE_PYTHON=%s" % ("1" if mode == "py" else "0"),
          "from zope.interface import (Interface, implementedBy, providedBy, directlyProvides,",
          "                            classImplements, classImplementsOnly, classImplementsFirst)",
